@@ -42,9 +42,9 @@ def poke(rng, cpu=True):
         lines.append('sys.w 0xa000 %d' % rng.randrange(256))
         lines.append('sys.w 0xbfff %d' % rng.randrange(256))
     if cpu:
-        lines += ['sys.cyc %d' % rng.choice([50, 300, 1200]), 'sys.get', 'sys.dump']
+        lines += ['sys.cyc %d' % rng.choice([50, 300, 700]), 'sys.get', 'sys.dump']
     else:
-        lines += ['sys.hw %d' % rng.choice([50, 300, 1200]), 'sys.dump']
+        lines += ['sys.hw %d' % rng.choice([50, 300, 700]), 'sys.dump']
     return lines
 
 
@@ -114,7 +114,7 @@ def bus_histories(rng, n, steps=(30, 120), cpu0=True):
             elif r < 0.8:
                 lines.append('sys.r 0x%04x' % bus_addr(rng))
             elif r < 0.92:
-                lines.append('sys.hw %d' % rng.choice([1, 1, 2, 3, 19, 20, 41, 114, 161, 500, rng.randrange(1, 2000)]))
+                lines.append('sys.hw %d' % rng.choice([1, 1, 2, 3, 19, 20, 41, 114, 161, 500, rng.randrange(1, 1000)]))
             elif cpu:
                 lines.append('sys.cyc %d' % rng.choice([1, 2, 7, 50, rng.randrange(1, 400)]))
             else:
@@ -225,14 +225,14 @@ def generate(rng, tier):
     add('hostile_images', hostile(rng, 400 if t else 60))
     sw = G.single_write_sweep(fresh_upto=8 if t else 1, romcodes=None if t else [0, 1, 2, 5, 8], with_ram=True)
     if not t:
-        sw = sw[::2]
+        sw = sw[::3]
     add('cart_single_write', sw)
     add('cart_random', G.random_sequences(rng, 2000 if t else 150, ram_ops=True, ticks=True))
     ch = G.hostile_images(rng, 200 if t else 20)
     add('cart_hostile', ch if t else ch[::4])
     add('bus_histories', bus_histories(rng, 2500 if t else 150))
-    add('programs', program_cases(rng, 1500 if t else 110, 6000 if t else 3000))
-    add('random_bytes', random_byte_programs(rng, 600 if t else 50, 3000 if t else 1500))
+    add('programs', program_cases(rng, 1500 if t else 110, 6000 if t else 1800))
+    add('random_bytes', random_byte_programs(rng, 600 if t else 40, 3000 if t else 1000))
     add('dma_pages', dma_cases(rng, range(256) if t else list(range(0, 256, 5)) + [0xfe, 0xff, 0xdf, 0xe0, 0xf1, 0xf2]))
     add('wave_ram', wave_cases(rng, 600 if t else 60))
     add('opcodes', undefined_cases(rng))
